@@ -198,6 +198,9 @@ def run_property(modname, tier="quick", seed=0, jobs=None, only=None, verbose=Fa
 
     # ---- verdict lines
     os.makedirs(REPLAY_DIR, exist_ok=True)
+    for fn in os.listdir(REPLAY_DIR):
+        if fn.startswith(prop + "-"):
+            os.remove(os.path.join(REPLAY_DIR, fn))
     known = load_known(prop)
     nviol = 0
     printed_known = set()
